@@ -23,7 +23,9 @@ EXPLANATION = (
     "algebra (res[t] = arr[t - shift]) and then requiring the value that reaches `shifts`, followed across dmt_block / "
     "dmt_block_valid, to be the delay with odd negation parity; (R4) in the valid-samples DM transform the width of each "
     "row assigned equals the declared output width; (R5) each accepted reference-frequency name resolves to a Header "
-    "attribute. Not decided: delay values, monotonicity, float32 rounding-boundary cases, restoration of a pulse."
+    "attribute; (R6) the streamed file dedispersion places block i at i*(gulp-maxdelay) for the very gulp handed to read_plan, "
+    "uses maxdelay as both skipback and kernel limit, accumulates into zeros and declares range-length minus maxdelay samples "
+    "(C06's overlap-save rules re-evaluated). Not decided: delay values, monotonicity, float32 rounding-boundary cases, restoration of a pulse."
 )
 KMOD = "sigpyproc.core.kernels"
 PARAMS = "sigpyproc.params"
@@ -279,6 +281,16 @@ def run(prog: Program, res: Result, tier: str) -> None:
     for nm, why in ADDS_DISPERSION.items():
         res.notes.append(f"excluded from the direction rule by role: {nm} ({why})")
 
+    # ---- R6 streamed dedispersion: block offsets are consistent with the plan (shared with C06.R2) --------
+    from .c06 import _kernel_reduction
+    scratch = Result("C06", prog)
+    _kernel_reduction(prog, scratch, "dedisperse", "dedisperse",
+                      {"inarray": "data", "nchans": "nchans", "nsamps": "count", "index": "index", "maxdelay": "maxdelay"},
+                      "outarray", Poly.sym("RANGE_LEN"), minus_skipback=True)
+    for o in scratch.obligations:
+        res.add("R6", None, None, o.ok, f"[{o.rule}] {o.detail}", construct=o.construct, key=f"{o.rule}:{o.key}", where=o.where)
+        res.obligations[-1].file, res.obligations[-1].line = o.file, o.line
+
     # ---- R4 valid width agreement -----------------------------------------------------------------------
     _valid_width(prog, res)
 
@@ -303,6 +315,7 @@ def run(prog: Program, res: Result, tier: str) -> None:
     res.floor("R3", 13)
     res.floor("R4", 2)
     res.floor("R5", 1)
+    res.floor("R6", 8)
     if nsites < 9:
         raise AnalysisError(f"only {nsites} delay consumer sites found (9 confirmed by hand)")
 
